@@ -43,6 +43,8 @@ fn check(c: &Case, units: &UnitView, st: &mut Stats) -> Verdict {
             src.push('\n');
         }
         src.push_str("\nServe with @./sauces/hollandaise{150%g}, @../basics/stock{1-2%cups}, @@pesto{2%tbsp} and @./x/y{some%kg}.\n");
+        // timers carry quantities too, whatever their unit (a non-time unit is an analysis error, the output stays)
+        src.push_str("\nWait ~{2%l}, ~sugar{2%lb}, ~{1-3%cups} and ~x{500%g}.\n");
         st.class("with recipe-reference ingredients");
     }
     let Some(r) = EXTENDED.parse(&src).into_output() else {
